@@ -176,3 +176,16 @@ Proof.
     + intros [A B]. constructor; [exact A | apply IH, B].
     + intros F. inversion F as [|? ? A B]; subst. split; [exact A | apply IH, B].
 Qed.
+
+(* the byte-level query is compositional too: scanning two serialised programs back to back finds an
+   effect exactly when one of the two scans does (nothing leaks across the boundary) *)
+Lemma bytes_contains_any_concat a b fl :
+  Forall well_formed_op a -> Forall well_formed_op b -> 0 <= fl < 64 ->
+  bytes_contains_any (to_bytes a ++ to_bytes b) fl =
+  bytes_contains_any (to_bytes a) fl || bytes_contains_any (to_bytes b) fl.
+Proof.
+  intros Ha Hb Hfl. rewrite <- to_bytes_app.
+  rewrite (bytes_contains_any_exact (a ++ b) fl) by (try exact Hfl; apply Forall_app; split; assumption).
+  rewrite (bytes_contains_any_exact a fl Ha Hfl), (bytes_contains_any_exact b fl Hb Hfl).
+  apply existsb_app.
+Qed.
